@@ -92,7 +92,9 @@ GenPrint ==
                                              NcCase(st[2], st[3], x[1], x[2], x[3], x[4])]]))
       [] st[1] = "item" ->
             LET d == Data[st[2]] IN
-            IF d.k = "lit"
+            IF d.k = "tnb" THEN PrintT("GEN " \o ToJson([id |-> d.id, r |-> ToNumberStr(d.s, d.b)]))
+            ELSE IF d.k = "tnn" THEN PrintT("GEN " \o ToJson([id |-> d.id, r |-> ToNumberNum(d.n, d.b)]))
+            ELSE IF d.k = "lit"
             THEN LET r == Denote(d.t) IN PrintT("GEN " \o ToJson([id |-> d.id, kind |-> r.kind, v |-> r.val]))
             ELSE PrintT("GEN " \o ToJson([id |-> d.id] @@ NumCase(d.s)))
       [] OTHER -> TRUE
